@@ -164,7 +164,8 @@ Definition lindell22_table : list (nat * bool * N * lfld) := Eval vm_compute in
     (3, true, B "signature.s.fieldBytes", LPartS) ].
 Definition boldyreva_table : list (nat * bool * N * bfld) := Eval vm_compute in
   [ (1, true, B "sigma_i.v.compressedBytes", BSigma);
-    (1, true, B "sigma_i.pop.v.compressedBytes", BPop) ].
+    (1, true, B "sigma_i.pop.v.compressedBytes", BPop);
+    (1, true, B "sigma_pop_i.v.compressedBytes", BPop); (1, true, B "sigma_pop_i.pop.v.compressedBytes", BPop) ].
 Definition canetti_table : list (nat * bool * N * cfld) := Eval vm_compute in
   [ (1, true, B "V", CV);
     (2, true, B "Message.SessionID", CSid); (2, true, B "Message.SharingID", CShId); (2, true, B "Message.Rho", CRho);
